@@ -97,32 +97,39 @@ class TSBurstDetector(Elaboratable):
         ctrl  = self.sink.ctrl
 
 
-        def advance_on_match(count, target_ctrl=0b0000, fail_state="NONE_DETECTED"):
+        # A word that isn't the next word of the set in progress voids everything counted so far --
+        # wherever it arrives: inside a set, right behind one, or after an idle gap. If that word is
+        # itself the first word of a set, the next set has already begun.
+        first_word_matches = (data == self._set_data[0]) & (ctrl == self._first_word_ctrl)
+
+        def restart():
+            m.d.ss += consecutive_set_count.eq(0)
+            with m.If(first_word_matches):
+                m.next = "1_DETECTED"
+            with m.Else():
+                m.next = "WAIT_FOR_FIRST"
+
+
+        def advance_on_match(count, target_ctrl=0b0000):
             data_matches = (data == self._set_data[count])
             ctrl_matches = (ctrl == target_ctrl)
 
             # Once we have a valid word in our stream...
             with m.If(self.sink.valid):
 
-                # ... advance if that word matches; or move to our "fail state" otherwise.
+                # ... advance if that word matches; or start over otherwise.
                 with m.If(data_matches & ctrl_matches):
                     m.next = f"{count + 1}_DETECTED"
                 with m.Else():
-                    m.next = fail_state
+                    restart()
 
 
         last_state_number = len(self._set_data)
         with m.FSM(domain="ss"):
 
-            # NONE_DETECTED -- we haven't seen any parts of our ordered set;
-            # we're waiting for the first one.
-            with m.State("NONE_DETECTED"):
-                m.d.ss += consecutive_set_count.eq(0)
-                m.next = "WAIT_FOR_FIRST"
-
             # WAIT_FOR_FIRST -- we're waiting to see the first word of our sequence
             with m.State("WAIT_FOR_FIRST"):
-                advance_on_match(0, target_ctrl=self._first_word_ctrl, fail_state="WAIT_FOR_FIRST")
+                advance_on_match(0, target_ctrl=self._first_word_ctrl)
 
             # 1_DETECTED -- we're parsing the first data word; which we'll do slightly differently,
             # as it can contain a variable configuration field.
@@ -136,7 +143,7 @@ class TSBurstDetector(Elaboratable):
                 # Once we have a valid word in our stream...
                 with m.If(self.sink.valid):
 
-                    # ... advance if that word matches; or move to our "fail state" otherwise.
+                    # ... advance if that word matches; or start over otherwise.
                     with m.If(data_matches & ctrl_matches):
                         m.next = f"2_DETECTED"
 
@@ -154,7 +161,7 @@ class TSBurstDetector(Elaboratable):
                             ]
 
                     with m.Else():
-                        m.next = "NONE_DETECTED"
+                        restart()
 
 
             for i in range(2, last_state_number):
@@ -176,6 +183,7 @@ class TSBurstDetector(Elaboratable):
                 with m.Else():
                     m.d.ss += consecutive_set_count.eq(consecutive_set_count + 1)
 
+                # The next set may follow immediately (a foreign word voids the count just updated).
                 with m.If(self.sink.valid):
                     advance_on_match(0, target_ctrl=self._first_word_ctrl)
                 with m.Else():
